@@ -3800,6 +3800,14 @@ def c17(ctx):
             continue
         jobs.append((f"m{i}", m["patches"], src))
     ctx.count("multi_change_jobs", sum(1 for j in jobs if j[0].startswith("m")))
+    # patches in which an earlier change declares metavariables and the change that follows uses the same names as ordinary
+    # code: what the later change must leave alone keeps its comments
+    sc_cases = [c for c in gen_cases(ctx, "c05", 3 * n, ctx.seed + 9, golden=False) if " scope" in c.get("note", "")]
+    for i, c in enumerate(sc_cases[: n // 3]):
+        src = inject_comments(rng, c["src"])
+        if src:
+            jobs.append((f"s{i}", c["patches"], src))
+    ctx.count("scope_jobs", sum(1 for j in jobs if j[0].startswith("s")))
     # long runs of rewritten declarations in front of untouched ones with comments: around the look-ahead (64) of the list
     # alignment, with and without an import added in front
     for nrun in (7, 63, 64, 65, 130):
@@ -3837,6 +3845,7 @@ def c17(ctx):
         runs = list(ex.map(one, jobs))
     # which declarations contain a site (also a site rewritten to identical syntax): from the Lean engine model
     touched = {}
+    touched_spec_only = {}
     dd = ctx.scratch("c17dec")
     with open(os.path.join(dd, "in.jsonl"), "w") as f:
         for cid, patches, src in jobs:
@@ -3844,6 +3853,12 @@ def c17(ctx):
     for inp, orig, impl, model, same in run_engine_batch(ctx, ["-inputs", os.path.join(dd, "in.jsonl")], "c17dec"):
         if impl["trace"] == model["trace"]:
             touched[inp["id"]] = model.get("touched", [])
+        elif model.get("status") == "ok":
+            # the engine and its specification disagree about this case (other properties report that): which declarations
+            # hold a site is still what the specification says - a declaration it leaves alone and whose syntax comes out
+            # unchanged must keep its comments, whatever the engine did to it on the way
+            touched_spec_only[inp["id"]] = model.get("touched", [])
+            ctx.count("engine_trace_differs_from_specification")
     facts_tie(ctx)
     c17_intervals_tie(ctx, jobs, touched)
     c17_astdiff_tie(ctx, jobs, ctx.extra.pop("_untouched_extents", {}))
@@ -3856,10 +3871,10 @@ def c17(ctx):
             if code != 0 or not patched:
                 ctx.count("unpatched")
                 continue
-            if cid not in touched:
+            if cid not in touched and cid not in touched_spec_only:
                 ctx.count("no_model_answer")
                 continue
-            f.write(json.dumps({"id": cid, "orig": src, "out": body, "touched": touched[cid]}) + "\n")
+            f.write(json.dumps({"id": cid, "orig": src, "out": body, "touched": touched.get(cid, touched_spec_only.get(cid))}) + "\n")
             meta[cid] = (patches, src, body)
     r = run([ctx.harness, "commentcheck", "-inputs", pth])
     if r.returncode != 0:
